@@ -17,17 +17,29 @@ import omega.symbolic.temporal as trl
 
 
 def make_game(rnd, decl_env, decl_sys, moore, plus_one, qinit, n_holds, n_goals,
-              backend='cudd', dense=None):
+              backend='cudd', dense=None, base='plain'):
     """Random game over the declared variables, as formulas over atoms chosen
     at random (keeps actions structured enough to be often realizable)."""
     import dd.autoref as autoref
-    aut = trl.Automaton()
+    if base == 'plain':
+        aut = trl.Automaton()
+    elif base == 'default-streett':
+        aut = trl.default_streett_automaton()
+    else:
+        aut = trl.default_rabin_automaton()
     if backend == 'autoref':
         aut.bdd = autoref.BDD()
     if decl_env:
         aut.declare_variables(**decl_env)
     aut.declare_variables(**decl_sys)
-    aut.varlist = dict(env=list(decl_env), sys=list(decl_sys))
+    if base == 'plain':
+        aut.varlist = dict(env=list(decl_env), sys=list(decl_sys))
+    else:
+        # the lists of the default automaton, populated in place
+        for v in decl_env:
+            aut.varlist['env'].append(v)
+        for v in decl_sys:
+            aut.varlist['sys'].append(v)
     aut.moore, aut.plus_one, aut.qinit = moore, plus_one, qinit
     aut.prime_varlists()
 
@@ -379,7 +391,8 @@ def rebuild_same_automaton(kind, seed, n_games, backend='cudd'):
             seq = [rnd.choice(counts[:4]), rnd.choice(counts), rnd.choice(counts)]
             aut = None
             for round_, (nh, ng) in enumerate(seq):
-                fresh = make_game(rnd, de, ds, moore, plus_one, qinit, nh, ng, backend, dense=0.95)
+                fresh = make_game(rnd, de, ds, moore, plus_one, qinit, nh, ng, backend, dense=0.95,
+                                  base=('plain' if n % 2 == 0 else 'default-' + kind))
                 if aut is None:
                     aut = fresh
                 else:
@@ -441,7 +454,7 @@ def resolve_same_automaton(kind, seed, n_pairs, backend='cudd'):
         n = 0
         shapes_ = [(dict(x='bool'), dict(y='bool')), (dict(x='bool'), dict(y=(0, 2))), (dict(x=(0, 2)), dict(y='bool'))]
         qinits = [r'\A \A', r'\E \E', r'\A \E', r'\E \A']
-        for _ in range(n_pairs):
+        for pair_no in range(n_pairs):
             de, ds = rnd.choice(shapes_)
             nh, ng = rnd.choice([(1, 1), (1, 2), (2, 1)])
             aut = None
@@ -489,7 +502,8 @@ def resolve_same_automaton(kind, seed, n_pairs, backend='cudd'):
                                           moore=moore, plus_one=plus_one, sys=str(ds), differs_at=str(sorted(got ^ set(want))[:4]), seed=seed))
                     break
                 qinit = rnd.choice(qinits)
-                fresh = make_game(rnd, de, ds, moore, plus_one, qinit, nh, ng, backend)
+                fresh = make_game(rnd, de, ds, moore, plus_one, qinit, nh, ng, backend,
+                                  base=('plain' if pair_no % 2 == 0 else 'default-' + kind))
                 if aut is None:
                     aut = fresh
                 elif round_ == 1:
